@@ -100,13 +100,25 @@ fn push_selector(sh: &mut Sheet, leaf: Leaf) {
     }
 }
 
-struct Built {
-    input: Sheet,
-    normal: Sheet,
-    low: Sheet,
-    dropped: u32,
-    moved: u32,
-    rules: u32,
+/// where a piece of the expected low-priority sheet comes from
+#[derive(Clone, Debug, PartialEq)]
+pub enum LowSrc {
+    /// replayed wrapper text (not written through the token path)
+    Replay,
+    /// synthesised by the conversion of the `:host` rule whose prelude spans these input pieces
+    Synth(usize, usize),
+    /// copied / transformed from this input piece
+    Copy(usize),
+}
+
+pub struct Built {
+    pub input: Sheet,
+    pub normal: Sheet,
+    pub low: Sheet,
+    pub low_src: Vec<LowSrc>,
+    pub dropped: u32,
+    pub moved: u32,
+    pub rules: u32,
 }
 
 fn build_rec(nodes: &[Node], chain: &mut Vec<usize>, b: &mut Built, opts: &Opts, next_id: &mut u32) {
@@ -116,8 +128,11 @@ fn build_rec(nodes: &[Node], chain: &mut Vec<usize>, b: &mut Built, opts: &Opts,
                 let id = *next_id;
                 *next_id += 1;
                 b.rules += 1;
+                let sel_start = b.input.pieces.len();
                 push_selector(&mut b.input, *leaf);
+                let block_start = b.input.pieces.len();
                 push_block(&mut b.input, id);
+                let block_end = b.input.pieces.len();
                 let convert = opts.convert_host;
                 if convert && leaf.moved() {
                     b.moved += 1;
@@ -138,9 +153,17 @@ fn build_rec(nodes: &[Node], chain: &mut Vec<usize>, b: &mut Built, opts: &Opts,
                         b.low.plain(&format!("{:?}", h), c);
                         b.low.plain("]", c);
                     }
+                    while b.low_src.len() < b.low.pieces.len() {
+                        let replay = b.low.pieces[b.low_src.len()].ctx != "synth";
+                        b.low_src.push(if replay { LowSrc::Replay } else { LowSrc::Synth(sel_start, block_start) });
+                    }
                     push_block(&mut b.low, id);
+                    for k in block_start..block_end {
+                        b.low_src.push(LowSrc::Copy(k));
+                    }
                     for _ in chain.iter() {
                         b.low.plain("}", "wrapper");
+                        b.low_src.push(LowSrc::Replay);
                     }
                 } else if convert && leaf.dropped() {
                     b.dropped += 1;
@@ -162,8 +185,8 @@ fn build_rec(nodes: &[Node], chain: &mut Vec<usize>, b: &mut Built, opts: &Opts,
     }
 }
 
-fn build(nodes: &[Node], opts: &Opts) -> Built {
-    let mut b = Built { input: Sheet::new(), normal: Sheet::new(), low: Sheet::new(), dropped: 0, moved: 0, rules: 0 };
+pub fn build(nodes: &[Node], opts: &Opts) -> Built {
+    let mut b = Built { input: Sheet::new(), normal: Sheet::new(), low: Sheet::new(), low_src: vec![], dropped: 0, moved: 0, rules: 0 };
     let mut id = 1;
     build_rec(nodes, &mut vec![], &mut b, opts, &mut id);
     b
@@ -172,7 +195,7 @@ fn build(nodes: &[Node], opts: &Opts) -> Built {
 // --- enumeration -------------------------------------------------------------------------------
 
 /// number of node lists; `lens[d]` = maximal list length at remaining depth d
-fn lists(d: u32, lens: &[u32], nleaves: u64) -> u64 {
+pub fn lists(d: u32, lens: &[u32], nleaves: u64) -> u64 {
     let it = items(d, lens, nleaves);
     let mut total = 0;
     let mut p = 1;
@@ -189,7 +212,7 @@ fn items(d: u32, lens: &[u32], nleaves: u64) -> u64 {
         nleaves + WRAP3.len() as u64 * lists(d - 1, lens, nleaves)
     }
 }
-fn unrank_list(mut i: u64, d: u32, lens: &[u32], nleaves: u64) -> Vec<Node> {
+pub fn unrank_list(mut i: u64, d: u32, lens: &[u32], nleaves: u64) -> Vec<Node> {
     let it = items(d, lens, nleaves);
     let mut len = 0;
     let mut p = 1;
@@ -217,7 +240,7 @@ fn unrank_item(i: u64, d: u32, lens: &[u32], nleaves: u64) -> Node {
     Node::Wrap(WRAP3[(i / inner) as usize], unrank_list(i % inner, d - 1, lens, nleaves))
 }
 
-fn option_sets() -> Vec<Opts> {
+pub fn option_sets() -> Vec<Opts> {
     let mut v = vec![];
     for convert in [true, false] {
         for p in [None, Some("p")] {
@@ -234,7 +257,7 @@ fn option_sets() -> Vec<Opts> {
     v
 }
 
-fn describe(nodes: &[Node]) -> String {
+pub fn describe(nodes: &[Node]) -> String {
     nodes
         .iter()
         .map(|n| match n {
@@ -358,7 +381,7 @@ pub fn explore(thorough: bool, result_path: &str) {
     write_result(result_path, &res);
 }
 
-fn tree_json(nodes: &[Node]) -> Value {
+pub fn tree_json(nodes: &[Node]) -> Value {
     Value::Array(
         nodes
             .iter()
@@ -369,7 +392,7 @@ fn tree_json(nodes: &[Node]) -> Value {
             .collect(),
     )
 }
-fn tree_from(v: &Value) -> Vec<Node> {
+pub fn tree_from(v: &Value) -> Vec<Node> {
     v.as_array()
         .map(|a| {
             a.iter()
